@@ -96,12 +96,17 @@ var (
 	dEcho   = decl("echo", "func $Pecho(s string) string { return s }")
 	dGid    = decl("gid", "func $Pgid[X any](a X) X { return a }")
 	dRec    = decl("recid", "func $Precid(s string, n int) string {\n\tif n <= 0 {\n\t\treturn s\n\t}\n\treturn $Precid(s, n-1)\n}")
+	dBoth   = decl("both", "func $Pboth(s string) (string, string) { return s, s }")
+	dRecSw  = decl("recSwap", "func $PrecSwap(a, b string, n int) string {\n\tif n == 0 {\n\t\treturn a\n\t}\n\treturn $PrecSwap(b, a, n-1)\n}")
+	dRecSh  = decl("recShift", "func $PrecShift(a, b, c string, n int) string {\n\tif n == 0 {\n\t\treturn a\n\t}\n\treturn $PrecShift(b, c, a, n-1)\n}")
 	dMk     = decl("mk", "func $Pmk(s string) func() string {\n\treturn func() string { return s }\n}")
 	dNamed  = decl("named", "func $Pnamedres(s string) (r string) {\n\tdefer func() { r = s }()\n\treturn \"a\"\n}")
 	dGS     = gdecl("GS", "var $PGS string\nfunc $PrdGS() string { return $PGS }", "$PGS = \"\"")
 	dGT     = gdecl("GT", "var $PGT $PT\nfunc $PrdGT() string { return $PGT.F }", "$PGT = $PT{}")
 	dGA     = gdecl("GA", "var $PGA [2]string\nfunc $PrdGA0() string { return $PGA[0] }\nfunc $PrdGA1() string { return $PGA[1] }", "$PGA = [2]string{}")
 	dGN     = gdecl("GN", "type $PNS struct {\n\tIn struct{ F string }\n\tTags [2]string\n}\nvar $PGN $PNS\nfunc $PrdGNin() string { return $PGN.In.F }\nfunc $PrdGNtag() string { return $PGN.Tags[0] }\nfunc $PrdGNw() $PNS { return $PGN }", "$PGN = $PNS{}")
+	dGSO    = gdecl("GSO", "var $PGSO string\nfunc $PrdGSOInto(d *string) { *d = $PGSO }", "$PGSO = \"\"")
+	dGSK    = gdecl("GSK", "var $PGSK string\nfunc $PfetchOut(d *string) { *d = $PGSK }\nfunc $PfetchRet() string { return $PGSK }\nfunc $PreportOut() {\n\tvar v string\n\t$PfetchOut(&v)\n\trt.Sink1(v)\n}\nfunc $PreportRet() {\n\tv := $PfetchRet()\n\trt.Sink1(v)\n}", "$PGSK = \"\"")
 	dGM     = gdecl("GM", "var $PGM = map[string]string{}\nfunc $PrdGM() string { return $PGM[\"k\"] }", "$PGM = map[string]string{}")
 	dGP     = gdecl("GP", "var $PGP = new(string)\nfunc $PrdGP() string { return *$PGP }", "$PGP = new(string)")
 	dGSL    = gdecl("GSL", "var $PGSL = make([]string, 2)\nfunc $PrdGSL() string { return $PGSL[0] }", "$PGSL = make([]string, 2)")
@@ -221,6 +226,12 @@ var Steps = []Step{
 	st("c.tup3of4", "S", "S", "_, _, _, $y = $Pfour($x)", "four"),
 	st("c.tupWrap", "S", "S", "_, _, $y = $Pwrap3($x)", "three", "wrap3"),
 	st("c.tup1ok", "S", "S", "_, a$i := $Ptwo1any($x)\nv$i, ok$i := a$i.(string)\n_ = ok$i\n$y = v$i", dTwo1a),
+	st("c.tupBoth", "S", "S", "a$i, b$i := $Pboth($x)\n$y = a$i + b$i", dBoth),
+	st("c.tupBothSecond", "S", "S", "a$i, b$i := $Ptwo1($x)\n$y = a$i + b$i", dTwo1),
+	st("c.tupBothVariadic", "S", "S", "a$i, b$i := $Ptwo1($x)\n$y = $Plast(a$i, b$i)", dTwo1, dLast),
+	st("c.recSwap", "S", "S", "$y = $PrecSwap(\"c\", $x, 1)", dRecSw),
+	st("c.recSwap2", "S", "S", "$y = $PrecSwap($x, \"c\", 2)", dRecSw),
+	st("c.recShift", "S", "S", "$y = $PrecShift(\"c\", \"d\", $x, 2)", dRecSh),
 	st("c.variadic", "S", "S", "$y = $Plast(\"a\", $x)", dLast),
 	st("c.methV", "S", "S", "$y = $PK1{}.Echo($x)", dK1),
 	st("c.methP", "S", "S", "$y = (&$PK1{}).EchoP($x)", dK1),
@@ -248,6 +259,7 @@ var Steps = []Step{
 	st("g.exchange", "S", "S", "_ = $Pexchange($x)\n$y = $Pexchange(\"c\")", "GX"),
 	st("k.stateful", "S", "S", "acc$i := \"\"\nf$i := func(s string) string {\n\tr := acc$i\n\tacc$i = s\n\treturn r\n}\n_ = f$i($x)\n$y = f$i(\"c\")").flat(),
 	st("g.sc", "S", "S", "$PGS = $x\n$y = $PGS", dGS),
+	st("g.scOutH", "S", "S", "$PGSO = $x\n$PrdGSOInto(&$y)", dGSO),
 	st("g.scH", "S", "S", "$PGS = $x\n$y = $PrdGS()", dGS),
 	st("g.fld", "S", "S", "$PGT.F = $x\n$y = $PGT.F", dT, dGT),
 	st("g.fldH", "S", "S", "$PGT.F = $x\n$y = $PrdGT()", dT, dGT),
@@ -326,6 +338,10 @@ var Sinks = []SinkForm{
 	{ID: "snk.variadic", In: []Kind{"S"}, Text: "rt.Sinkv2(\"a\", $x)"},
 	{ID: "snk.inSlice", Text: "rt.Sink1([]any{$x})"},
 	{ID: "snk.inMap", Text: "rt.Sink1(map[string]any{\"k\": $x})"},
+	// the sink sits in a parameterless function that fetches the data from a global through a helper (returned / copied
+	// into an out-parameter): no data flows into that function through its call
+	{ID: "snk.viaGlobalRet", In: []Kind{"S"}, Decls: []string{dGSK}, Text: "$PGSK = $x\n$PreportRet()"},
+	{ID: "snk.viaGlobalOut", In: []Kind{"S"}, Decls: []string{dGSK}, Text: "$PGSK = $x\n$PreportOut()"},
 	{ID: "snk.deferred", Text: "defer rt.Sink1($x)"},
 	{ID: "snk.deferClosure", Text: "defer func() { rt.Sink1($x) }()"},
 	{ID: "snk.deferEarlyClosure", Early: "defer func() { rt.Sink1($y) }()"},
